@@ -161,5 +161,11 @@ func c9Corpus() [][]string {
 	// 4. an audio-only muxer with two tracks: the leading one is advertised as a rendition WITHOUT URI
 	aa := []c9CorpusTrack{{codec: "aac", rate: 48000, sr: 48000, name: "main", lang: "en", def: true, step: 96}, {codec: "opus", rate: 48000, name: "alt1", lang: "it", step: 60}}
 	out = append(out, c9BuildCase("fmp4", 10000000, 0, 5, aa, 2, 520, 200, mid("mv", "s1")))
+	// 5. audio-only MPEG-TS (44.1 kHz) that starts below zero and crosses it: both ends of a delivered difference are
+	// converted to 90 kHz with truncation towards zero (candidate: more than one tick off)
+	a0 := []c9CorpusTrack{{codec: "aac", rate: 44100, sr: 44100, step: 13}}
+	out = append(out, c9BuildCase("ts", 10000000, 0, 5, a0, -0.75, 520, 300, func(skip, n int) ([]int, []string) {
+		return []int{skip + (n-skip)*6/10}, []string{"mv"}
+	}))
 	return out
 }
